@@ -75,8 +75,8 @@ var propSpecs = []PropSpec{
 	},
 	{
 		ID:          "C16",
-		Rules:       []string{"C16.TAINT", "C16.FMT", "C16.FIELDS", "C16.WIDTH", "C16.ONCE"},
-		Explanation: "Decides the one-diagnostic-one-line clause structurally: (TAINT) at every site that builds a diagnostic message (all callers of the 16 message primitives), a demand-driven backward search through format verbs, string operations, parameters (to all callers), returns, fields (to all stores), containers, strings.Builder writes and error texts finds no unquoted path from a user-text source (YAML scalars and keys, tokens, metadata read from files, error text of cron/os calls that echo their input) - %q, strconv.Quote*, quotes*/sortedQuotes and a newline-replacing ReplaceAll cut the search; (FMT) every printf-like call has a constant format (forwarded format parameters are followed to all callers); (FIELDS) GetTemplateFields copies every field of Error to the same-named field. (WIDTH) both runs of the caret line are measured in terminal cells; (ONCE) a format template is executed once per run, outside any loop, on the accumulated fields of all files.",
+		Rules:       []string{"C16.TAINT", "C16.FMT", "C16.FIELDS", "C16.WIDTH", "C16.ONCE", "C16.MATCHER"},
+		Explanation: "Decides the one-diagnostic-one-line clause structurally: (TAINT) at every site that builds a diagnostic message (all callers of the 16 message primitives), a demand-driven backward search through format verbs, string operations, parameters (to all callers), returns, fields (to all stores), containers, strings.Builder writes and error texts finds no unquoted path from a user-text source (YAML scalars and keys, tokens, metadata read from files, error text of cron/os calls that echo their input) - %q, strconv.Quote*, quotes*/sortedQuotes and a newline-replacing ReplaceAll cut the search; (FMT) every printf-like call has a constant format (forwarded format parameters are followed to all callers); (FIELDS) GetTemplateFields copies every field of Error to the same-named field. (WIDTH) both runs of the caret line are measured in terminal cells; (ONCE) a format template is executed once per run, outside any loop, on the accumulated fields of all files. (MATCHER) the header PrettyPrint writes is replayed symbolically from its entry block (fields as placeholders, colour writes bracketed by a colour and a reset sequence, the reset of a write ending in a line break landing on the next line) and the shipped problem matcher must parse the plain header, the coloured header and a coloured header following another one back to the same file, line, column, message and kind.",
 		NotDecided:  "regex round trip through the problem matcher; caret placement; width computations; that the single-line output of shellcheck/pyflakes is single-line (assumption)",
 		Assumptions: append([]string{"messages of strconv, net/url, encoding/json, path.Match and text/scanner quote or do not echo their input; shellcheck/pyflakes messages are single-line"}, commonAssumptions...),
 	},
